@@ -6,7 +6,6 @@
  "replace": [],
  "annotate": ["alg/sha256.c"],
  "defines": ["VERIF_HALLOC", "VERIF_SHA256_LOCKSTEP"],
- "matrix": {"BLOCK_IN_CTX": [0, 1]},
  "loop_contracts": false,
  "timeout": 300,
  "assumptions": ["G2 lockstep trace abstraction: RND/MSCH macro bodies replaced by uninterpreted logging leaves via the spec ghost rule; L-sub (DESIGN 2.5) combines this with group sha256_leaves"]
@@ -89,7 +88,8 @@ h_sha256_transform(void)
 	uint32_t * tmp32 = malloc(288);
 	IN_BYTES(ext, 64, 64);
 	__CPROVER_assume(ctx != NULL && tmp32 != NULL);
-	const uint8_t * block = BLOCK_IN_CTX ? ctx->buf : ext;
+	IN(int, inctx);
+	const uint8_t * block = inctx ? ctx->buf : ext;
 	uint32_t H[8];
 	uint8_t M[64];
 	IN(unsigned, gi);
@@ -111,6 +111,6 @@ h_sha256_transform(void)
 	__CPROVER_assert(ctx->state[gi] == H[gi], "SHA256_Transform == FIPS 180-4 6.2.2 under every interpretation of the leaves");
 	__CPROVER_assert(ctx->count == count0, "count untouched");
 	__CPROVER_assert(block[gi * 8] == M[gi * 8], "block untouched");
-	VCOVER(ctx->state[0] != 0 && gi == 7);
-	VCOVER(L256_rn == 64);
+	VCOVER(ctx->state[0] != 0 && gi == 7 && inctx);
+	VCOVER(L256_rn == 64 && !inctx);
 }
